@@ -96,6 +96,12 @@ func (k *K) EffectSites(fi *FnInfo) []Site {
 				out = append(out, Site{in, "event"})
 				continue
 			}
+			// a same-package helper that emits events on behalf of this function
+			if callee := c.StaticCallee(); callee != nil && callee.Blocks != nil && callee.Pkg == fi.Fn.Pkg {
+				if _, isCall := in.(*ssa.Call); isCall && k.emitsDeep(callee, 2) {
+					out = append(out, Site{in, "event"})
+				}
+			}
 			ws := k.cg.CallWrites(ci)
 			for _, wr := range ws {
 				out = append(out, Site{in, wr})
@@ -283,4 +289,95 @@ func retDesc(fi *FnInfo, r Ret) string {
 		s = s[:120] + "…"
 	}
 	return "return " + s
+}
+
+// ---- deep call sites --------------------------------------------------------------------
+//
+// A maintainer may move a block of a function into an unexported helper. The rules
+// therefore look for the calls they care about in the function itself AND in the
+// in-repository functions it calls statically (same module, depth-limited); the helper's
+// body is analysed in the caller's vocabulary (parameters substituted by the arguments).
+
+type DeepCall struct {
+	Outer ssa.Instruction     // instruction in the root function: the call itself or the call of the helper that contains it
+	Fi    *FnInfo             // info (root vocabulary) of the function that contains Call
+	Call  ssa.CallInstruction // the matching call
+	Inner bool                // Call lives in a helper
+}
+
+func (k *K) deepCalls(fi *FnInfo, pred func(*ssa.CallCommon) bool, depth int) []DeepCall {
+	var out []DeepCall
+	var walk func(cur *FnInfo, outer ssa.Instruction, d int)
+	walk = func(cur *FnInfo, outer ssa.Instruction, d int) {
+		for _, b := range cur.Fn.Blocks {
+			for _, in := range b.Instrs {
+				ci, ok := in.(ssa.CallInstruction)
+				if !ok {
+					continue
+				}
+				o := outer
+				if o == nil {
+					o = in
+				}
+				c := ci.Common()
+				if pred(c) {
+					out = append(out, DeepCall{Outer: o, Fi: cur, Call: ci, Inner: outer != nil})
+					continue
+				}
+				if d <= 0 || c.IsInvoke() {
+					continue
+				}
+				callee := c.StaticCallee()
+				if callee == nil || callee.Blocks == nil || callee.Pkg == nil || callee.Pkg != cur.Fn.Pkg {
+					continue
+				}
+				if _, isCall := in.(*ssa.Call); !isCall {
+					continue // defer/go closures are not part of the straight-line logic
+				}
+				env := map[*ssa.Parameter]*Term{}
+				for i, p := range callee.Params {
+					if i < len(c.Args) {
+						env[p] = cur.T.Of(c.Args[i])
+					}
+				}
+				walk(k.w.InfoEnv(callee, env), o, d-1)
+			}
+		}
+	}
+	walk(fi, nil, depth)
+	return out
+}
+
+// Args returns the argument terms (root vocabulary) of the deep call, receiver included
+// for static method calls, excluded for interface invokes.
+func (dc DeepCall) Args() []string { return termsOf(dc.Fi, dc.Call.Common().Args) }
+
+// dcFacts: facts that hold at the deep call: those dominating its root-level site plus,
+// for a call inside a helper, those dominating it inside the helper.
+func (k *K) dcFacts(root *FnInfo, dc DeepCall) []Fact {
+	out := append([]Fact{}, root.FactsAt(dc.Outer.Block())...)
+	if dc.Inner {
+		out = append(out, dc.Fi.FactsAt(dc.Call.Block())...)
+	}
+	return out
+}
+
+func (k *K) dcHas(root *FnInfo, dc DeepCall, pred func(Fact) bool) bool {
+	for _, f := range k.dcFacts(root, dc) {
+		if pred(f) {
+			return true
+		}
+	}
+	return false
+}
+
+func (k *K) dcHasAtom(root *FnInfo, dc DeepCall, atom string) bool {
+	return k.dcHas(root, dc, func(f Fact) bool { return f.Atom == atom })
+}
+
+func (k *K) dcPos(root *FnInfo, dc DeepCall) string {
+	if dc.Inner {
+		return dc.Fi.InstrPos(dc.Call)
+	}
+	return root.InstrPos(dc.Outer)
 }
